@@ -8,6 +8,9 @@ Binding: G = TLC-generated schedules (every I-level counterexample as a *candida
 schedules) imposed on real goroutines by the gate scheduler of harness/util/resourcepool_test.go, P-level monitors
 after every step; V = seeded random gate schedules and really concurrent runs of the real pool, resource events
 judged by TLC against the P-level, step traces validated against the I-level.
+Backend layer: spec/ConnPool.tla (connectionPoolImpl.Get/Put/Close + pooledConnectImpl.Recycle over an abstract
+pool) with ConnPool_gen.tla; harness/backend/connpool_test.go imposes its behaviours on the real wrapper + real
+util.ResourcePool (in-memory connections), same P-level monitors and TLC judgement.
 A verdict only ever comes from the real pool showing a P-level bad state.
 """
 import copy
@@ -28,14 +31,17 @@ MANIFEST = {
                 "util.ResourcePool through build-tagged step hooks (gate scheduler), and counts only when the real pool shows "
                 "the bad state; ordinary TLC schedules are imposed the same way comparing the real counters with the "
                 "specification after every step; seeded random gate schedules and really concurrent runs record resource events "
-                "that TLC judges against the P-level specification and step traces that TLC validates against the I-level.",
+                "that TLC judges against the P-level specification and step traces that TLC validates against the I-level. "
+                "The backend wrapper (connectionPoolImpl Get/Put/Close, pooledConnectImpl.Recycle) has its own small model, checked "
+                "exhaustively; all its behaviours for 2 clients and sampled ones for 3 are imposed on the real wrapper over the real pool.",
         "design_ref": "DESIGN.md section 5 C24, section 2.3, section 3.4, Appendix A.1",
     },
     "level_note": "Wall-clock is abstracted: idle expiry and the 60 s scale-in cool-down are choices of the schedule (the "
                   "harness sets idleTimeout / scaleOutTime accordingly); timer.Timer.Stop is modelled as 'waits for the running "
                   "callback' (read from util/timer/timer.go); statistics counters active/waitCount/idleClosed are not modelled; "
-                  "SetCapacity arguments are 1..max; the backend.connectionPoolImpl wrapper and pooledConnectImpl.Recycle's "
-                  "returnTime write are covered only through Get/Put of the resource pool (race detector run in the thorough tier); "
+                  "SetCapacity arguments are 1..max; the backend wrapper is bound at the granularity the inner pool's hooks allow "
+                  "(pointer read + inner call are one step each; ping-on-get, GetCheck and SetCapacity of the wrapper are not exercised; "
+                  "pooledConnectImpl.Recycle's returnTime write after Put is not judged); "
                   "the exhaustive configurations that include capacity changes or Close are cut behind the recorded root-cause "
                   "states (known findings), i.e. they are exhaustive for the interleavings in which no such root cause occurs.",
     "technique": "TLA+ I-level/P-level specification + TLC exhaustive check; TLC counterexamples and schedules imposed on the "
@@ -62,10 +68,21 @@ P_INV = "NoOverAllocation OneHolder PutNeverFails NoOtherPanic QuiescentAccounti
 MC_CLEAN = "SPECIFICATION Spec\n" + CONSTS + "INVARIANTS TypeOK " + P_INV + \
            " CountersAgree SlotsConserved CapacityInRange NoRootCause\nCHECK_DEADLOCK TRUE\n"
 MC_CUT = "SPECIFICATION Spec\n" + CONSTS + "INVARIANTS TypeOK " + P_INV + \
-         " CountersAgree SlotsConserved\nCONSTRAINT NoRootCause\nCHECK_DEADLOCK TRUE\n"
+         " CountersAgree SlotsConserved RepairHolds\nCONSTRAINT NoRootCause\nCHECK_DEADLOCK TRUE\n"
 GEN = "SPECIFICATION GenSpec\n" + CONSTS + "VIEW GenView\nINVARIANTS EmitBad EmitEnd\nCHECK_DEADLOCK FALSE\n"
 TRACE_I = "SPECIFICATION TraceSpec\n" + CONSTS + "POSTCONDITION TraceAccepted\nCHECK_DEADLOCK FALSE\n"
 TRACE_P = "SPECIFICATION TraceSpec\nPOSTCONDITION TraceAccepted\nCHECK_DEADLOCK FALSE\n"
+
+
+BHARNESS = ["backend/connpool_test.go"]
+BRUN = "^TestVerifConnPool$"
+BCONSTS = "CONSTANTS\n  Clients = {%(clients)s}\n  Cap = %(cap)d\n  Rounds = %(rounds)d\n"
+B_MC = "SPECIFICATION CSpec\n" + BCONSTS + "INVARIANTS C_TypeOK C_PutNeverFails C_NoOverAllocation C_Quiescent C_CloseWaits\nCHECK_DEADLOCK TRUE\n"
+B_GEN = "SPECIFICATION GSpec\n" + BCONSTS + "INVARIANTS CEmit C_PutNeverFails\nCHECK_DEADLOCK FALSE\n"
+
+
+def bconsts(clients, cap, rounds):
+    return dict(clients=",".join('"c%d"' % (i + 1) for i in range(clients)), cap=cap, rounds=rounds)
 
 
 def consts(clients=2, max=2, init=1, rounds=2, sweeps=0, ticks=0, setcap=0, close=False, ff=False, pn=False, to=False):
@@ -117,6 +134,8 @@ def panic_class(msg):
         return "close-of-closed-channel"
     if "Put into a full" in msg:
         return "full-pool"
+    if "connection pool is closed" in msg:
+        return "pool-closed"
     return "other"
 
 
@@ -145,6 +164,12 @@ def run(ctx):
             for t, v in verdicts.items():
                 for cl in v["viol"]:
                     ctx.deviation(rec["signature"], "replayed trace violates %s" % cl, c)
+        elif c.get("mode") == "bsched":
+            res, summ, out = ctx.harness("backend", BHARNESS, BRUN, [{"kind": "replay", "clients": c["clients"], "cap": c["cap"],
+                                                                      "rounds": c["rounds"], "sched": c["sched"]}])
+            for r in res:
+                for d in r.get("devs", []):
+                    ctx.deviation(d["sig"], d["what"], c)
         else:
             res, summ, out = ctx.harness("util", HARNESS, RUN, [{"kind": "replay", "cfg": c["cfg"], "sched": c["sched"]}])
             for r in res:
@@ -157,11 +182,11 @@ def run(ctx):
     # ------------------------------------------------------------------ 1. exhaustive model checking
     W = "auto" if thorough else 4
     mcs = [("steady 2x2", MC_CLEAN, consts(sweeps=1, ff=True, pn=True)),
-           ("setcap+close 2x1 cut", MC_CUT, consts(rounds=1, setcap=2, close=True)),
-           ("scale-in 2x1 two ticks cut", MC_CUT, consts(rounds=1, sweeps=1, ticks=2))]
+           ("setcap+close 2x2 (no cut needed since fix 98e158f)", MC_CLEAN, consts(setcap=2, close=True)),
+           ("scale-in 2x1 cut", MC_CUT, consts(rounds=1, sweeps=1, ticks=1))]
     if thorough:
-        mcs += [("setcap 2x2 cut", MC_CUT, consts(setcap=2)),
-                ("close 2x2 cut", MC_CUT, consts(close=True)),
+        mcs += [("scale-in 2x1 two ticks cut", MC_CUT, consts(rounds=1, sweeps=1, ticks=2)),
+                ("setcap+close+sweep 2x2 factory failures", MC_CLEAN, consts(setcap=2, close=True, sweeps=1, ff=True, pn=True)),
                 ("steady 2x2 timeouts", MC_CLEAN, consts(sweeps=2, ff=True, pn=True, to=True)),
                 ("steady 3x1 max3", MC_CLEAN, consts(clients=3, rounds=1, max=3, sweeps=1, ff=True, pn=True)),
                 ("scale-in 2x2 cut", MC_CUT, consts(sweeps=1, ticks=1, ff=True, pn=True)),
@@ -178,18 +203,17 @@ def run(ctx):
         return label, r
 
     # ------------------------------------------------------------------ 2. schedule generation
-    gens = [("setcap", consts(setcap=2), "mc", None), ("close", consts(close=True), "mc", None)]
+    gens = [("scalein3", consts(clients=3, rounds=1, ticks=1), "mc", None)]
     sims = [("all3", consts(clients=3, rounds=1, sweeps=1, ticks=1, setcap=2, close=True, ff=True, pn=True), 120),
             ("scalein", consts(sweeps=1, ticks=1, ff=True, pn=True), 120),
             ("steady", consts(clients=3, rounds=2, max=3, init=1, sweeps=2, ff=True, pn=True, to=True), 120)]
     if not thorough:
-        sims = [("all3", sims[0][1], 160), ("steady", sims[2][1], 100)]
+        sims = [("all3", sims[0][1], 200)]
     if thorough:
         gens += [("scalein", consts(sweeps=1, ticks=1), "mc", None),
                  ("closetick", consts(ticks=1, close=True), "mc", None),
                  ("settick", consts(ticks=1, setcap=2), "mc", None),
-                 ("twoticks", consts(ticks=2), "mc", None),
-                 ("scalein3", consts(clients=3, rounds=1, ticks=1), "mc", None)]
+                 ("twoticks", consts(ticks=2), "mc", None)]
         sims = [(n, k, 2500) for (n, k, _) in sims[:3]] + [("all2", consts(sweeps=1, ticks=2, setcap=2, close=True, ff=True, pn=True, to=True), 2500)]
 
     def do_gen(g):
@@ -214,13 +238,35 @@ def run(ctx):
         # keep the stored finding cases, one simulation, and the whole V side
         mcs, gens, sims = [], [], sims[:1]
         ctx.notes.append("DEV MODE: exhaustive TLC runs skipped")
+    def do_backend_tlc():
+        """backend layer: exhaustive check of the wrapper model, all behaviours of a small configuration, sampled larger ones"""
+        k = bconsts(3, 2, 2)
+        r = ctx.tlc("ConnPool", "cp_mc.cfg", extra_files={"cp_mc.cfg": B_MC % k}, coverage=True, workers=2, heap="2g", timeout=600,
+                    label="exhaustive: backend wrapper, 3 clients x 2 rounds, capacity 2, one Close")
+        ctx.log("mc backend", r.stats(), "%.1fs" % r.wall)
+        if r.zero_actions:
+            ctx.notes.append("backend model: actions never taken: %s" % r.zero_actions)
+        bc = []
+        for (ncl, cap, rounds) in ([(2, 1, 1)] + ([(2, 2, 1), (2, 1, 2)] if thorough else [])):
+            g = ctx.tlc("ConnPool_gen", "cp_gen.cfg", extra_files={"cp_gen.cfg": B_GEN % bconsts(ncl, cap, rounds)}, workers=1, heap="2g",
+                        timeout=600, label="generate: every behaviour of the backend wrapper, %d clients x %d rounds, capacity %d" % (ncl, rounds, cap))
+            ctx.log("gen backend", (ncl, cap, rounds), g.stats(), len(g.cases), "behaviours")
+            bc += g.cases
+        g = ctx.tlc("ConnPool_gen", "cp_sim.cfg", extra_files={"cp_sim.cfg": B_GEN % bconsts(3, 2, 2)}, workers=1, mode="sim",
+                    sim="num=%d" % (1500 if thorough else 150), depth=80, seed=rng.randrange(1, 2 ** 31), timeout=300, heap="2g",
+                    label="simulate backend wrapper behaviours, 3 clients x 2 rounds")
+        bc += g.cases
+        return bc
+
     with ThreadPoolExecutor(max_workers=4 if not thorough else 3) as ex:
+        f_b = ex.submit(do_backend_tlc)
         f_mc = [ex.submit(do_mc, m) for m in mcs]
         f_gen = [ex.submit(do_gen, g) for g in gens]
         f_sim = [ex.submit(do_sim, s) for s in sims]
         mc_res = [f.result() for f in f_mc]
         gen_res = [f.result() for f in f_gen]
         sim_res = [f.result() for f in f_sim]
+        bcases = f_b.result()
     # vacuity: every action of the specification must be taken in at least one exhaustive configuration
     never = None
     for label, r in mc_res:
@@ -243,9 +289,15 @@ def run(ctx):
         cases.append(c)
 
     # cases stored with the known findings are always replayed (finding re-observed, or seen fixed)
-    known_cases = vlib.known_replay_cases("C24")
-    for kc in known_cases:
-        add_case({"kind": "candidate", "cfg": kc["cfg"], "sched": kc["sched"], "bad": kc.get("bad", []), "stale": kc.get("stale", "")}, "known")
+    # (a repaired finding's case is replayed as far as the repaired code follows it and then run to completion:
+    #  if the defect comes back the old signature is no longer listed as known and is reported)
+    for k in vlib.load_known("C24"):
+        kc = k.get("case")
+        if not kc:
+            continue
+        kind = "candidate" if k.get("status", "known") == "known" else "regression"
+        add_case({"kind": kind, "cfg": kc["cfg"], "sched": kc["sched"], "bad": kc.get("bad", []), "stale": kc.get("stale", "")},
+                 "known" if kind == "candidate" else "fixed")
     ncand = 0
     for name, r in gen_res + sim_res:
         lim = 3000 if thorough else 400
@@ -297,8 +349,30 @@ def run(ctx):
 
     allcases = cases + ([st_case] if st_case else []) + vcases
     tp = ctx.path("events.ndjson")
-    res, summ, out = ctx.harness("util", HARNESS, RUN, allcases, env={"VERIF_TRACE_OUT": tp}, timeout=1500)
+    # backend-layer cases: distinct TLC behaviours + seeded random schedules
+    bseen, ball = set(), []
+    for c in bcases:
+        key = json.dumps([c["clients"], c["cap"], c["rounds"], [(x["p"], x["l"]) for x in c["sched"]]])
+        if key not in bseen:
+            bseen.add(key)
+            ball.append(c)
+    if not thorough and len(ball) > 700:
+        rng.shuffle(ball)
+        ball = ball[:700]
+    nb_tlc = len(ball)
+    for (ncl, cap, rounds) in [(3, 2, 2), (2, 1, 2), (4, 3, 1)]:
+        ball.append({"kind": "random", "clients": ["c%d" % (i + 1) for i in range(ncl)], "cap": cap, "rounds": rounds,
+                     "seed": rng.randrange(1, 2 ** 31), "runs": 60 if not thorough else 1000})
+    btp = ctx.path("bevents.ndjson")
+    with ThreadPoolExecutor(max_workers=2) as ex:
+        f_u = ex.submit(ctx.harness, "util", HARNESS, RUN, allcases, env={"VERIF_TRACE_OUT": tp}, timeout=1500)
+        f_bh = ex.submit(ctx.harness, "backend", BHARNESS, BRUN, ball, env={"VERIF_TRACE_OUT": btp}, timeout=1500)
+        res, summ, out = f_u.result()
+        bres, bsumm, bout = f_bh.result()
     ctx.log("harness:", summ)
+    ctx.log("backend harness:", bsumm)
+    if bsumm.get("skipped"):
+        raise vlib.Inconclusive("backend gate scheduler gave up after %d blocked steps" % bsumm["stuck"])
     if summ.get("skipped"):
         raise vlib.Inconclusive("gate scheduler gave up after %d blocked steps; %d cases skipped" % (summ["stuck"], summ["skipped"]))
 
@@ -348,6 +422,30 @@ def run(ctx):
                         ctx.notes.append("MODEL-DRIFT: a step that blocks by Go semantics in the specification did not block: " + o["probe"])
         elif o["kind"] == "free":
             stats["free_runs"] += 1
+    bstats = {"backend_tlc_behaviours_replayed": 0, "backend_conforming": 0, "backend_random_runs": 0, "backend_drift": 0}
+    for r in bres:
+        o = r["obs"]
+        c = ball[r["case"]]
+        runinfo[o.get("trace")] = (o, c)
+        for d in r.get("devs", []):
+            ctx.deviation(d["sig"], d["what"], {"mode": "bsched", "clients": o["clients"], "cap": o["cap"], "rounds": o["rounds"],
+                                                "sched": o.get("sched") or []})
+        if o["kind"] == "random":
+            bstats["backend_random_runs"] += 1
+        else:
+            bstats["backend_tlc_behaviours_replayed"] += 1
+            if not o.get("drift") and not r.get("devs"):
+                bstats["backend_conforming"] += 1
+        if o.get("drift") and not (o["kind"] == "random" and o["drift"].startswith("no enabled step") and r.get("devs")):
+            bstats["backend_drift"] += 1
+            if len(drift_examples) < 8:
+                drift_examples.append({"kind": "backend " + o["kind"], "drift": o["drift"]})
+    ctx.cov.update(bstats)
+    if bstats["backend_drift"]:
+        ctx.notes.append("MODEL-DRIFT (backend layer): %d schedules diverged from spec/ConnPool.tla (not a verdict)" % bstats["backend_drift"])
+    for c in ball[:nb_tlc]:
+        if len({x["p"] for x in c["sched"]}) > 1:
+            nontriv.add(json.dumps(["b", c["cap"], [(x["p"], x["l"]) for x in c["sched"]]]))
     for c in cases:
         if interleaved(c["sched"]):
             nontriv.add(json.dumps([(s["p"], s["l"], s["a"]) for s in c["sched"]]))
@@ -367,7 +465,7 @@ def run(ctx):
                          "the step model needs to be re-derived from the code" % (stats["ordinary"] - stats["ordinary_conforming"], stats["ordinary"]))
 
     # ------------------------------------------------------------------ 5. V: TLC judges the recorded events (run concurrently)
-    events = [e for e in ctx.read_ndjson(tp) if not e.get("summary")]
+    events = [e for e in ctx.read_ndjson(tp) if not e.get("summary")] + [e for e in ctx.read_ndjson(btp) if not e.get("summary")]
     bytrace = {}
     for e in events:
         bytrace.setdefault(e["t"], []).append(e)
@@ -468,7 +566,10 @@ def run(ctx):
             else:
                 syms = [SYMPTOM_OF[cl]]
             for sy in sorted(set(syms)):
-                if o.get("kind") == "free":
+                if o.get("layer") == "backend":
+                    sig = "C24 backend %s" % sy
+                    case = {"mode": "bsched", "clients": o["clients"], "cap": o["cap"], "rounds": o["rounds"], "sched": o.get("sched") or []}
+                elif o.get("kind") == "free":
                     sig = "C24 free:%s %s" % (o.get("fam"), sy)
                     case = {"mode": "trace", "fam": o.get("fam"), "events": evs}
                 else:
@@ -485,8 +586,9 @@ def run(ctx):
     ctx.cov["traces_validated_against_impl"] += len(verdicts)
     ctx.cov["impl_event_traces_judged_by_tlc"] = len(verdicts)
     ctx.cov["impl_event_traces_rejected_by_tlc"] = nrej
-    ctx.cov["evaluations"] += summ["runs"]
+    ctx.cov["evaluations"] += summ["runs"] + bsumm["runs"]
     ctx.cov["steps_executed_on_real_pool"] = summ["steps"]
+    ctx.cov["steps_executed_on_real_backend_pool"] = bsumm["steps"]
 
     ok_i, rej_i = 0, 0
     for ok, rej in ires:
